@@ -38,7 +38,7 @@ SIMCHECK = os.path.join(ROOT, 'bin', 'simcheck')
 
 PROPS = {'C10': 'sim.c10_lists', 'C17': 'sim.c17_frame'}
 TIERS = {
-    'quick': {'runs_per_worker': {'C10': 6000, 'C17': 3500}, 'budget_s': 120},
+    'quick': {'runs_per_worker': {'C10': 6000, 'C17': 3000}, 'budget_s': 150},
     'thorough': {'runs_per_worker': {'C10': 10 ** 9, 'C17': 10 ** 9}, 'budget_s': 600},
 }
 EPOCH_RUNS = {'C10': 500, 'C17': 250}
